@@ -390,7 +390,7 @@ def stage_a(ctx):
                           {'trace': r.errtrace})
         if cov:
             for a in INTERNAL + sorted(ENV):
-                if r.ok and r.coverage.get(a, (0, 0))[0] == 0:
+                if r.ok and r.coverage.get(a, (0, 0))[1] == 0:
                     raise tlc.MachineryError('vacuous: action %s never taken' % a)
     small = []
     for wname in ('W_AcceptDeep', 'W_CacheHit', 'W_Refused', 'W_RejectOtherAnchor', 'W_TwoInFlight'):
